@@ -229,7 +229,7 @@ type Case struct {
 	Leaves []LeafPlan `json:"leaves"`      // in the order of leavesOf
 }
 
-var prefixes = []string{"app", "APP", "My_App", "my-app", "svc9", "app_", "my_app", ""}
+var prefixes = []string{"app", "APP", "My_App", "my-app", "svc9", "app_", "my_app", "", "str", "n"}
 
 func genCase(t *rapid.T) Case {
 	c := Case{Family: rapid.SampledFrom(families).Draw(t, "family"), Prefix: rapid.SampledFrom(prefixes).Draw(t, "prefix"), File: rapid.SampledFrom([]string{"json", "yaml"}).Draw(t, "file")}
